@@ -166,6 +166,17 @@ pub mod e3 {
                 foutline(&RoundShape { inner_shape: Cone::new(hh, r), border_radius: br }.to_outline(n, bn)) }
             "rcuboid_outline" => { let he = d3::v(a); let br = a.f(); let n = a.u() as u32;
                 foutline(&RoundShape { inner_shape: Cuboid::new(he), border_radius: br }.to_outline(n)) }
+            // to_trimesh of the centred primitives, judged also for "every triangle within the discretisation error"
+            "ball_trimesh_e" => { let r = a.f(); let nt = a.u() as u32; let np = a.u() as u32; fmesh(&Ball::new(r).to_trimesh(nt, np)) }
+            "cyl_trimesh_e" => { let hh = a.f(); let r = a.f(); let n = a.u() as u32; fmesh(&Cylinder::new(hh, r).to_trimesh(n)) }
+            "cone_trimesh_e" => { let hh = a.f(); let r = a.f(); let n = a.u() as u32; fmesh(&Cone::new(hh, r).to_trimesh(n)) }
+            "cuboid_trimesh_e" => { let he = d3::v(a); fmesh(&Cuboid::new(he).to_trimesh()) }
+            // the point buffers of Polyline / TriMesh::scaled (`pt.coords.component_mul_assign(scale)`), bit-exact
+            "points_scaled3" => { let k = a.u(); let pts: Vec<P3> = (0..k).map(|_| d3::p(a)).collect(); let sc = d3::v(a);
+                let pl = Polyline::new(pts.clone(), None).scaled(&sc);
+                let idx: Vec<[u32; 3]> = (0..k as u32 - 2).map(|i| [i, i + 1, i + 2]).collect();
+                let tm = TriMesh::new(pts, idx).expect("trimesh").scaled(&sc);
+                format!("{} {}", fpts(pl.vertices()), fpts(tm.vertices())) }
             "poly_trimesh" => { let k = a.u(); let pts: Vec<P3> = (0..k).map(|_| d3::p(a)).collect();
                 fmesh(&ConvexPolyhedron::from_convex_hull(&pts).expect("convex hull").to_trimesh()) }
             "hf3_trimesh" => { let h = hf(a); fmesh(&h.to_trimesh()) }
@@ -502,6 +513,13 @@ pub mod g {
                 v.push(("rcone_outline".into(), format!("{} {} {} {} {}", hx(ext(r, lat)), hx(ext(r, lat)), hx(ext(r, lat) * 0.25), 4 + r.below(12), 1 + r.below(6))));
                 v.push(("rcuboid_outline".into(), format!("{} {} {}", d3::hv(&V3::new(ext(r, lat), ext(r, lat), ext(r, lat))), hx(ext(r, lat) * 0.25), 1 + r.below(6))));
                 v.push(("poly_trimesh".into(), hull_pts3(r, lat)));
+                v.push(("ball_trimesh_e".into(), format!("{} {} {}", hx(ext(r, lat)), 3 + r.below(14), 2 + r.below(14))));
+                v.push(("cyl_trimesh_e".into(), format!("{} {} {}", hx(ext(r, lat)), hx(ext(r, lat)), 3 + r.below(30))));
+                v.push(("cone_trimesh_e".into(), format!("{} {} {}", hx(ext(r, lat)), hx(ext(r, lat)), 3 + r.below(30))));
+                v.push(("cuboid_trimesh_e".into(), d3::hv(&V3::new(ext(r, lat), ext(r, lat), ext(r, lat)))));
+                let k = 3 + r.below(5) as usize;
+                let mut ps = format!("{}", k); for _ in 0..k { ps.push(' '); ps.push_str(&d3::hp(&d3::gen_p(r, lat, 10.0))); }
+                v.push(("points_scaled3".into(), format!("{} {}", ps, d3::hv(&scale3(r, lat)))));
                 v.push(("ball2_polyline".into(), format!("{} {}", hx(ext(r, lat)), 3 + r.below(20))));
                 v.push(("cuboid2_polyline".into(), d2::hv(&d2::Vector::new(ext(r, lat), ext(r, lat)))));
                 v.push(("rcuboid2_polyline".into(), format!("{} {} {}", d2::hv(&d2::Vector::new(ext(r, lat), ext(r, lat))), hx(ext(r, lat) * 0.25), 1 + r.below(6))));
